@@ -22,13 +22,13 @@ OPEN_FRAGS = [
     "9x", "abx", "12345678901234567890", "18446744073709551615", "18446744073709551616", "1e400", "00123", "1.2.3", "1x", "0x", "1d", "'", "''", "'a'", "'a''b'",
     "'41'x", "'4'x", "'4g'x", "'41,42'X", "'+1'x", "'a'b", "'a'd", "'a'dt", "'a'DT", "'a'n", "'a't", "'a'x", "'é'", "'\n'", '"', '""', '"a"', '"a""b"', '"41"x', '"a"d', '"a"dt',
     '"a"n', '"é\n"', "/*", "*/", "/* c */", "/* \n */", "/", "*", "**", "* c;", "*c", "(", ")", "{", "}", "[", "]", "!", "!!", "¦", "¦¦", "|", "||", "¬", "^", "~", "∘", "¬=", "^=", "~=",
-    "+", "-", "<", "<=", "<>", ">", ">=", "><", ".", ",", ":", "=", "=*", "$", "$char5.", "$f.", "$5.2", "$é.", "$a", "@", "#", "?", "&", "&&", "& ", "%", "% ", "%1", "\\", "`", "€",
+    "+", "-", "<", "<=", "<>", ">", ">=", "><", ".", ",", ":", "=", "=*", "$", "$char5.", "$f.", "$5.2", "$é.", "$a", "$_yn.", "$_f5.2", "$_", "$_1x.", "$__.", "_x", "_", "__a1", "_é", "@", "#", "?", "&", "&&", "& ", "%", "% ", "%1", "\\", "`", "€",
     "\x00", "\x7f",
 ]
 MACRO_FRAGS = [
     "&a", "&&a", "&&&a", "&a.", "&a..b", "&&a&b", "&a&", "&é", "&_", "%let", "%let ", "%LET", "%put", "%put ", "%local", "%global", "%do", "%do ", "%end", "%to", "%to ", "%by", "%by ",
     "%while", "%until", "%if", "%if ", "%then", "%then ", "%else", "%else ", "%macro", "%macro ", "%mend", "%goto", "%goto ", "%return", "%abort", "%copy", "%include", "%inc", "%input",
-    "%sysexec", "%syscall", "%syscall ", "%window", "%display", "%symdel", "%syslput", "%sysrput", "%list", "%run", "%m", "%m(", "%m ", "%mac1", "%é", "%_x", "%str(", "%nrstr(", "%STR(",
+    "%sysexec", "%syscall", "%syscall ", "%window", "%display", "%symdel", "%syslput", "%sysrput", "%list", "%run", "%m", "%m(", "%m ", "%mac1", "%é", "%_x", "%_x(", "%__", "&_v.", "&__1", "%str(", "%nrstr(", "%STR(",
     "%eval(", "%sysevalf(", "%sysfunc(", "%qsysfunc(", "%scan(", "%qscan(", "%kscan(", "%substr(", "%qsubstr(", "%upcase(", "%qupcase(", "%index(", "%length(", "%bquote(", "%nrbquote(",
     "%superq(", "%unquote(", "%cmpres(", "%left(", "%trim(", "%sysget(", "%symexist(", "%quote(", "%nrquote(", "%sysmexecname(", "%validchs(", "%compstor(", "%datatyp(", "%verify(",
     "%lowcase(", "%sysprod(", "%sysmacexist(", "%*", "%* c;", "%*c'a;'b;", "%%", "%'", '%"', "%(", "%)", "%=", "%^", "%~", "a=1", "a=", "=b", "a,b", ",", "(a,b)", "(", ")", ")", " eq ",
@@ -87,7 +87,7 @@ def gen_strings(rng):
 PROG_STMTS = [
     "data a; set b; run;", "x = 1;", "y = x + 2.5e3;", "* comment;", "* multi\n line comment;", "* uses %helper(1) internally;", "* abc\n def %x;", "*\n\n%let a=1;",
     "* it's;", "%* macro comment;", "/* block\n comment */", "%let a = 1;", "%let b = %eval(&a + 1);", "%put &a;", "%put NOTE: done;", "%if &a ¬= 2 %then %put x;", "%if &a ne 2 %then %do; x=1; %end;",
-    "%else %do; %end;", "%let a = %eval(1 ¬= 2);", "%let c = %sysevalf(1.5 * 2);", "put x $я1.;", "put x $char5. y 8.2;", "%let x = %тест(1);", "%let a = %eval(%яя(1) + 2);", "%été(1)",
+    "%else %do; %end;", "%let a = %eval(1 ¬= 2);", "%let c = %sysevalf(1.5 * 2);", "put x $я1.;", "put x $char5. y 8.2;", "format y $_yn. z $_f5.2;", "_a = _b_ + __c;", "%let x = %тест(1);", "%let a = %eval(%яя(1) + 2);", "%été(1)",
     "proc sql; select * from t; quit;", "format x $char5.;", "y = 'it''s';", "z = \"&a..x\";", "t = \"%str()\";", "u = \"a%nrstr(&)b\"d;", "h = '4a,4B'x;", "d = '01jan2020'd;",
     "%do i = 1 %to 3; %end;", "%do i = 1 %to 10 %by 2; y=&i; %end;", "%do %while(&i < 3); %end;", "%do %until(&i ge 3); %end;", "%m(a, b=2)", "%m(a=%str(;))", "%m()", "%m;",
     "datalines;\n1 2\n;", "datalines4;\na;b\n;;;;", "cards;\nx\n;", "datalines ;\n1 'a\n;", "cards4 ;\na;b\n;;;;", "lines \n;\n* 1\n;", "%local a b;", "%global g;", "%goto lbl;", "%lbl: x=1;", "%return;", "%include 'f.sas';", "%sysfunc(cats(a, b))",
